@@ -12,7 +12,7 @@ ENGINES = [
     {"name": "translate", "path": "translate/", "serves_properties": ["C06", "C07", "C09", "C12", "C13", "C19", "C20"], "kind_free_text": "Python ast extractors regenerating lean/Stab/Gen from /repo on every run (status table, SQL shapes, schema/codec tables, transaction shapes, event map and call sites, expression dispatch)"},
     {"name": "mode-a-pure", "path": "harness/props/", "serves_properties": ["C03", "C07", "C08", "C09", "C12", "C13", "C14", "C15", "C16", "C19", "C20"], "kind_free_text": "correspondence: real functions / real SqliteQueue / real store vs the compiled Lean model driver on generated inputs and op sequences"},
     {"name": "mode-a-engine", "path": "harness/engine.py, harness/engine_suites.py", "serves_properties": ["C01", "C02", "C03", "C05", "C06", "C10", "C15", "C17", "C18"], "kind_free_text": "real engine driven one chosen message at a time (deliver / deliver-without-ack / kill at k-th commit / sweep / cancel / signal), state line after every op diffed with the Lean Engine model; monitors on the implementation traces"},
-    {"name": "mode-b-sched", "path": "harness/modeb.py", "serves_properties": ["C04", "C11"], "kind_free_text": "deterministic statement-level interleaving of 2-3 real handler threads on one SQLite file (second worker's operation injected at every legal DB call of the first)"},
+    {"name": "mode-b-sched", "path": "harness/modeb.py", "serves_properties": ["C04", "C11", "C18"], "kind_free_text": "deterministic statement-level interleaving of 2-3 real handler threads on one SQLite file (second worker's operation injected at every legal DB call of the first)"},
 ]
 
 NOT_BUILT = "machinery for this property is not built yet in this round (planned in DESIGN.md section 4); not claimed until its check exists"
@@ -24,82 +24,82 @@ ENGINE_NOTE = ("Engine model hand-written (lean/Stab/Model/Engine.lean), tied to
 
 def fill(claim, not_yet):
     claim("C01", "Lean 4 theorems on the effect-list engine model (commit granularity) + exhaustive kill-point enumeration vs the model",
-          "Proved: every handler except StartStage / CompleteStage / CancelWorkflow commits at most once; a kill before the first commit leaves the durable state untouched; a kill after the last handler commit equals an unacknowledged delivery. The end-to-end claim is refuted for the claim|plan window of StartStage (theorem crash_between_claim_and_plan_loses_upstream_data, finding F18, replayed on the real engine). The harness kills the real worker after every commit of every delivery of the reference run (thorough) and compares final statuses, data seen and execution counts with the uninterrupted run and with the model.",
+          "Proved: every handler except StartStage / CompleteStage / CancelWorkflow commits at most once; a kill before the first commit leaves the durable state untouched; a kill after the last handler commit equals an unacknowledged delivery. The end-to-end claim is refuted for the claim|plan window of StartStage (theorem crash_between_claim_and_plan_loses_upstream_data, finding F18, replayed on the real engine). The harness kills the real worker after every commit of every delivery of the reference run (thorough; stratified by message kind in the quick tier), lets the un-acked row come back after 0..8 further deliveries, kills the recovering worker a second time, and compares final statuses, data seen and execution counts with the uninterrupted run (where the reference is schedule-independent) and every intermediate state with the model.",
           ENGINE_NOTE + " A process kill = a prefix of the handler's commits is durable and all Python objects are dropped (SQLite atomic commit trusted).",
-          "DESIGN.md §4 C01")
+          "DESIGN.md §9 C01")
     claim("C02", "Lean 4 theorems on the engine model + schedule differential (reorder / redeliver) with re-execution monitor",
           "Proved: RunTask executes only a RUNNING task; a processed message is never dispatched again (C09); status guards make stale StartTask/CompleteTask/CompleteStage inert. Redelivery of a polling/transient RunTask re-executing a finished task (F12) was found by the monitor and fixed. Outcome determinism over whole runs is validated, not proved.",
-          ENGINE_NOTE, "DESIGN.md §4 C02")
+          ENGINE_NOTE, "DESIGN.md §9 C02")
     claim("C03", "Lean 4 proof: evaluate_readiness READY iff join condition (all inputs); engine claims monitored on every schedule",
           "For the executable model of evaluate_readiness, proved for all inputs: READY exactly when the join condition of the join type holds (or bypass / no upstreams); an AND join with a halted upstream is SKIP unless bypassed; a fired discriminator / N-of-M never fires again. Exhaustive agreement with the real function for <= 3 upstreams; engine-level monitor checks every NOT_STARTED->RUNNING audit row against an independent join oracle on every explored schedule.",
           "Pure half proved about the Lean model tied by exhaustive differential; engine half (claims only in READY states) is monitored on traces and follows in the model from hStartStage being the only NOT_STARTED->RUNNING writer; read-to-claim window covered by C04.",
-          "DESIGN.md §4 C03")
+          "DESIGN.md §9 C03")
     claim("C05", "Lean 4 theorems on _determine_final_status in the engine model + quiescence monitor on all schedules",
-          "Proved: a workflow with a TERMINAL stage is reported TERMINAL. Quiescent-state classification (final / explicitly waiting / wedged, incl. 'stuck until the wait budget') is monitored on every explored schedule; the wedges found are known findings F4, F28, F29 (jump loops) and the exotic class F5/F25.",
+          "Proved: a workflow with a TERMINAL stage is reported TERMINAL; no stage of a workflow reported final is left RUNNING un-cancelled; with fix F37 no handler claims a stage once the workflow is final. Quiescent-state classification (final / explicitly waiting / wedged, incl. 'stuck until the wait budget') is monitored on every explored schedule; the wedges found are known findings F4, F28, F29 (jump loops) and the exotic class F5/F25.",
           ENGINE_NOTE + " The driver invariant (G2) is not proved yet: quiescence is established by exploration, final-status facts by proof.",
-          "DESIGN.md §4 C05")
+          "DESIGN.md §9 C05")
     claim("C06", "Lean 4 proof over translated transition table + run-level invariant: every audit row legal on every schedule/crash/sweep (jump-free)",
           "Table facts are theorems about a table regenerated from models/status.py on every run. Engine: every handler except JumpToStage writes only legal transitions in ANY state (handler_writes_legal), hence along every run - any delivery order, redelivery, kill after any commit, sweep, cancel, signal - every durable status change is legal and completed statuses are final for workflows without jumps (every_write_legal_partial, complete_is_final_partial). Jump writes: guarded after fix F34; the skip of bypassed stages is not proved. Trigger audit of every explored trace is checked against the source table.",
-          ENGINE_NOTE, "DESIGN.md §4 C06")
+          ENGINE_NOTE, "DESIGN.md §9 C06")
     claim("C07", "Lean 4 proof on the optimistic-locking model + SQL shapes regenerated from source; interleaving differential on the real store",
           "At most one write per base version succeeds; the final content is the fold of the successful modifications in commit order provided no write ended half-applied (proved for transactional writes); retry linearizes; upsert_task is a CAS. Every stage UPDATE in both store_stage implementations has version = :version in its WHERE and bumps the version (decide over generated SQL).",
           "Interleaving at store-API-call granularity (SQLite single writer trusted). Auto-commit store_stage half-applied write was finding F33 (fixed).",
-          "DESIGN.md §4 C07")
+          "DESIGN.md §9 C07")
     claim("C08", "Lean 4 proof on the queue model (conservation, claim exclusivity, DLQ at limit) + per-op differential on the real SqliteQueue incl. crash points",
           "After any sequence of pushes, split/atomic polls, ack, reschedule, extend, expire, mature, DLQ moves, sweeps, replays and crashes at any commit, every pushed message is in exactly one of queue / DLQ / acknowledged; a claimed (id, version) is never claimed again; rows at the limit are never delivered and are moved unchanged; replay preserves the payload.",
           "Time is abstract (explicit expire/mature ops); PostgreSQL queue and thread-pool glue not covered.",
-          "DESIGN.md §4 C08")
+          "DESIGN.md §9 C08")
     claim("C09", "Lean 4 proof: bloom no-false-negative (real index arithmetic), committed-never-rerun over all op sequences; generated transaction-shape table",
           "The bloom filter never reports a marked/hydrated id as new; reset revokes and hydrate grants authority only on the complete id set; with the negative-cache option off a committed message is never dispatched again through any redeliveries, restarts, rotations and peer marks. A generated table pins which handler commits carry the processed mark.",
           "md5/sha1 and SQLite trusted; retention cleanup excluded (finding F32).",
-          "DESIGN.md §4 C09")
+          "DESIGN.md §9 C09")
     claim("C10", "Lean 4 theorems on the recovery model (sweep pushes only guarded messages; second sweep pushes no task work) + sweep-injection differential",
           "Proved in ANY state: a sweep only pushes messages (no row, mark, execution or status change); it pushes RunTask/StartTask only for a task with no queued message, in a RUNNING stage; a second sweep right after the first pushes no RunTask/StartTask at all. The harness injects one or two sweeps before every delivery step of the FIFO run (thorough) and compares outcome and execution counts with the sweep-free run.",
           ENGINE_NOTE + " That StartStage duplicates are absorbed rests on the status guards (C02/C04).",
-          "DESIGN.md §4 C10")
+          "DESIGN.md §9 C10")
     claim("C12", "Lean 4 proof on the replay fold model + generated fold/recorder tables; every-prefix / every-snapshot differential",
           "For all logs, rebuilding as of n equals folding exactly the events with sequence <= n; snapshot + tail equals the full replay on every field a snapshot carries; every recorder call site folds to the status the handler just wrote (generated table).",
           "That handlers produce covered histories is checked by the monitor; findings F3/F8 (fixed) and uncovered writers listed in DESIGN.md.",
-          "DESIGN.md §4 C12")
+          "DESIGN.md §9 C12")
     claim("C13", "Lean 4 proof on the TxnScope model + generated call-site table; kill at every commit index with event store in the same DB",
           "For all op sequences: durable sequences are 1..n, the subscriber log is an order-preserving sublist of the durable log, a rollback or crash appends and publishes nothing, a flat block is all-or-nothing; every completion-event call site lies inside a transaction block that stores the entity (decide over generated table).",
           "Handlers never nesting blocks is observed (max depth 1), not proved.",
-          "DESIGN.md §4 C13")
+          "DESIGN.md §9 C13")
     claim("C14", "Lean 4 proof on the attempt-counter pipeline model (retry_bounded, progress_visible) + real-engine retry chains",
-          "For every delivery/redelivery schedule an always-transiently-failing task is executed at most max_attempts times, then CompleteTask(TERMINAL) is pushed; every execution sees ctx + all earlier updates; a RUNNING answer keeps its context. The unrepaired code was proved unbounded (F1, fixed).",
+          "For every delivery/redelivery schedule an always-transiently-failing task is executed at most max_attempts times, then CompleteTask(TERMINAL) is pushed; every execution sees ctx + all earlier updates; a RUNNING answer keeps its context. The unrepaired code was proved unbounded (F1, fixed). The harness also kills the worker after the first commit of a retry delivery (retry row and saved progress must be one commit).",
           "Backoff durations, Postgres, per-message max_attempts other than the default not covered.",
-          "DESIGN.md §4 C14")
+          "DESIGN.md §9 C14")
     claim("C15", "Lean 4 proof: re-arm scope is the least closed set, skipped characterisation, jump potential strictly decreases; traversal + handler differential",
           "For all graphs: the re-arm scope is the least set containing the target closed under 'all prerequisites inside'; downstream is reachability; skipped = depends-only-on-source minus target chain. Every accepted jump strictly decreases a potential, so every schedule accepts finitely many jumps; a self loop is granted exactly max - count.",
-          "Pure half + handler-level differential; whole-workflow termination on every schedule is explored by the engine suites (findings F4/F28/F29).",
-          "DESIGN.md §4 C15")
+          "Pure half + handler-level differential; whole-workflow termination on every schedule, and 'one requested jump is applied once' when the worker dies at any commit of a JumpToStage delivery, are explored by the engine suites (known findings F4/F28; F29 fixed).",
+          "DESIGN.md §9 C15")
     claim("C16", "Lean 4 proof for every linear extension of the ancestor DAG (nearest wins, own wins, lists accumulate, reducers permutation-invariant) + exact-order differential",
           "For every linear extension the set-ordered Kahn pass can produce: the merged context has exactly the ancestors' keys, a path-ordered scalar has the nearest ancestor's value, own context wins, lists accumulate without duplicates, symmetric reducers are branch-order independent; with fix F17 a re-armed stage is planned from the current iteration's outputs.",
           "Values restricted to None/int/str, lists and str->atom dicts.",
-          "DESIGN.md §4 C16")
+          "DESIGN.md §9 C16")
     claim("C17", "Lean 4 proof: cancel flag monotone, no execution after cancel on every schedule (incl. crashes/sweeps); cancel-injection differential",
-          "Proved for all op sequences: once is_canceled is durable it stays set and the execution ledger never grows again; CancelWorkflow fans out CancelStage to every incomplete stage; CancelStage leaves no task NOT_STARTED/RUNNING. Finality and 'unfinished stages end CANCELED' are monitored with a cancel injected before a random step under every schedule class (known finding F26 for task-less stages).",
+          "Proved for all op sequences: once is_canceled is durable it stays set and the execution ledger never grows again; CancelWorkflow fans out CancelStage to every incomplete stage; CancelStage leaves no task NOT_STARTED/RUNNING. With fix F26: a StartStage / SkipStage arriving after the cancel commits nothing, and no handler of any message claims a stage (NOT_STARTED -> RUNNING) once the cancel is durable. Finality and 'unfinished stages end CANCELED' are monitored with a cancel injected before a random step under every schedule class.",
           ENGINE_NOTE + " The intra-handler window (task already past the flag check) is outside the atomic-step model.",
-          "DESIGN.md §4 C17")
+          "DESIGN.md §9 C17")
     claim("C19", "Lean 4 proof over generated schema / codec tables (every field persisted, UPDATE touches only, serialisers agree, round trip) + field-by-field differential",
           "Every dataclass field of stage, task and workflow is written and read back except a justified exemption list; the stage UPDATEs set exactly status/context/outputs/start_time/end_time/version; the two message serialisers are identical and deserialise(serialise) is the identity on every registered message type; tasks come back in creation order given monotonic ULIDs.",
           "Per-column conversions (json, enum, bool) are exercised by correspondence, not proved.",
-          "DESIGN.md §4 C19")
+          "DESIGN.md §9 C19")
     claim("C20", "Lean 4 proof: validate_ok_iff, toposort sound/complete, eval_total for every AST/context/depth + grammar differential",
           "validate_stage_graph succeeds exactly when refs are distinct, known, without self-edge and acyclic; topological_sort returns a permutation with every stage after its requisites; the expression evaluator (with fix F2) returns a value or ExpressionError for every tree, context and depth budget, so both callers skip or do not skip and never crash.",
           "The model starts at the AST (ast.parse trusted); floats, bytes, non-singleton `is` only monitored.",
-          "DESIGN.md §4 C20")
+          "DESIGN.md §9 C20")
     claim("C04", "Lean 4 proof on the ClaimProtocol model (all interleavings, any number of workers) + Mode-B statement-level interleaving of real handler threads",
           "For any number of StartStage, CompleteStage and SignalStage handlers and every interleaving at read/transaction granularity: at most one claim and one plan commit, StartTask is pushed once, _join_fired is written once, each upstream triggers the join once; with fix F6, if all handlers finish and one saw READY exactly one plan exists. Tied to the code by exhaustive Mode-B interleavings (2-3 workers, preemption depth <= 2) on all join types.",
           "Mode B class: worker B runs atomically inside a read-window of A, nested twice (what SQLite's single-writer locking permits at transaction granularity); retry bounds and max_attempts not modelled.",
-          "DESIGN.md §4 C04")
+          "DESIGN.md §9 C04")
     claim("C11", "Lean 4 proof on the Claims model (all op sequences incl. stale fast-path reads and sweeps) + Mode-B sibling races on the real engine",
           "A live stage with mutex key k owns k's claim row (never two live stages per key); at most one member of a deferred-choice group ever starts and the losers can only cancel; a delivered waiter acquires once the holder is complete or was re-armed (F30 fixed); the claim sweep keeps claims of live owners (F31 fixed).",
           "PostgreSQL acquire_claim not exercised.",
-          "DESIGN.md §4 C11")
-    claim("C18", "Lean 4 one-step theorems (signal delivered / buffered / dropped, buffered signal consumed in the suspending commit, SUSPENDED stays SUSPENDED under every other message) + signal-timing differential",
-          "Proved in ANY state: a signal on a SUSPENDED stage resumes it with exactly one RunTask in the same commit; a persistent signal on a non-suspended stage is buffered, a transient one dropped; a suspending result with a buffered signal consumes exactly one and re-runs in the same commit; no message other than its own signal, its own cancel or a jump re-arm moves a SUSPENDED stage. The harness sends persistent/transient signals at random moments (before start, running, suspended) under every schedule class and checks 'resumes = effective signals'.",
-          ENGINE_NOTE + " The run-level count is monitored, not proved; the statement-level race signal vs suspending result rests on the version CAS (C07).",
-          "DESIGN.md §4 C18")
+          "DESIGN.md §9 C11")
+    claim("C18", "Lean 4 one-step theorems (signal delivered / buffered / dropped, buffered signal consumed in the suspending commit, SUSPENDED stays SUSPENDED under every other message), theorems over ALL read/CAS-window schedules of the two-worker race signal handler vs suspending result (SignalRace) + signal-timing, crash-point and Mode-B differential",
+          "Proved in ANY state: a signal on a SUSPENDED stage resumes it with exactly one RunTask in the same commit; a persistent signal on a non-suspended stage is buffered, a transient one dropped; a suspending result with a buffered signal consumes exactly one and re-runs in the same commit; no message other than its own signal, its own cancel or a jump re-arm moves a SUSPENDED stage. Race model: for every window, both directions, any version and mailbox count a persistent signal is never lost, never applied twice, never left in the mailbox of a SUSPENDED stage; a transient one is delivered or dropped, never buffered; the variant whose CAS is guarded by a re-read version provably loses the signal. The harness sends persistent/transient signals at random moments (before start, running, suspended) under every schedule class, kills the worker at the commits of the signal and suspend steps, runs every legal Mode-B interleaving of the two real handlers, and checks 'resumes = effective signals'.",
+          ENGINE_NOTE + " The run-level count is monitored, not proved; Mode B class as for C04 (B runs atomically inside a read-window of A).",
+          "DESIGN.md §9 C18")
     for e in ENGINES:
         e["serves_properties"] = sorted(set(e["serves_properties"]))
